@@ -14,6 +14,7 @@ package main
 //     RS   X's certificate serial 6002, server-auth only   (valid on chain)
 //     RN   X's certificate serial 6003, not yet valid      (valid on chain)
 //     RI   X's certificate serial 6004, self-signed with X's key, issuer field names Y (valid on chain)
+//     RM   X's certificate serial 6005, subject (CN=Y, CN=X): the parser's CommonName is X (valid on chain)
 //   never registered: forgeries (new key) copying CN+serial of G, G2, GO in several kinds, a CA-issued
 //   one, a self-signed one whose issuer names Y, an unknown serial, a CN that is no account.
 
@@ -43,6 +44,7 @@ const (
 	pRegServer     presentable = "registered-server-auth-only"
 	pRegNotYet     presentable = "registered-not-yet-valid"
 	pRegIssuer     presentable = "registered-self-signed-issuer-names-other-tenant"
+	pRegMultiCN    presentable = "registered-subject-cn-other-tenant-then-self"
 	pForged        presentable = "forged-same-cn-serial"
 	pForgedExpired presentable = "forged-same-cn-serial-expired"
 	pForgedServer  presentable = "forged-same-cn-serial-server-auth"
@@ -55,7 +57,7 @@ const (
 	pNone          presentable = "no-certificate"
 )
 
-var allPresentables = []presentable{pGenuine, pGenuine2, pGenuineOther, pRegExpired, pRegServer, pRegNotYet, pRegIssuer,
+var allPresentables = []presentable{pGenuine, pGenuine2, pGenuineOther, pRegExpired, pRegServer, pRegNotYet, pRegIssuer, pRegMultiCN,
 	pForged, pForgedExpired, pForgedServer, pForgedCA, pForgedIssuer, pForged2, pUnknown, pForgedOther, pNotAccount, pNone}
 
 type seqOp string
@@ -73,9 +75,15 @@ type sequence struct {
 	// Sessions: every client keeps a tls.ClientSessionCache across the steps, as a long-running client
 	// does; a certificate presented again then RESUMES its TLS 1.3 session on the new connection
 	Sessions bool `json:"client_session_cache,omitempty"`
+	// TimeFamily selects a TIME-CROSSING sequence instead of Steps/Ops: "expiring", "becoming-valid" or
+	// "both" (see runTimeSequence)
+	TimeFamily string `json:"time_family,omitempty"`
 }
 
 func (q sequence) String() string {
+	if q.TimeFamily != "" {
+		return fmt.Sprintf("seq[X=t%d,time-crossing:%s]", q.Role, q.TimeFamily)
+	}
 	s := fmt.Sprintf("seq[X=t%d]", q.Role)
 	if q.Sessions {
 		s = fmt.Sprintf("seq[X=t%d,clients resume TLS sessions]", q.Role)
@@ -126,7 +134,7 @@ func buildWorld(role int, now time.Time) (*world, error) {
 	}{
 		{pGenuine, kProper, x, y, 4242}, {pGenuine2, kProper, x, y, 5151}, {pGenuineOther, kProper, y, x, 4242},
 		{pRegExpired, kExpired, x, y, 6001}, {pRegServer, kServerOnly, x, y, 6002}, {pRegNotYet, kNotYet, x, y, 6003},
-		{pRegIssuer, kSelfIssuerTenant, x, y, 6004},
+		{pRegIssuer, kSelfIssuerTenant, x, y, 6004}, {pRegMultiCN, kMultiCNOtherFirst, x, y, 6005},
 	} {
 		if err := reg(r.p, r.k, r.cn, r.o, r.serial); err != nil {
 			return nil, err
@@ -212,6 +220,11 @@ type stepResult struct {
 	DirectErr string      `json:"verify_peer_certificate_error,omitempty"`
 	Outcomes  []outcome   `json:"outcomes"`
 	Resumed   int         `json:"connections_that_resumed_a_tls_session"`
+	// time-crossing steps: the clock readings around the step and the validity boundary it is judged by
+	Boundary  string `json:"validity_boundary,omitempty"`
+	ClockFrom string `json:"clock_before,omitempty"`
+	ClockTo   string `json:"clock_after,omitempty"`
+	Unjudged  bool   `json:"too_close_to_boundary_left_unconstrained,omitempty"`
 }
 
 type sequenceResult struct {
@@ -231,6 +244,9 @@ func seqRequests(other string) []request {
 
 // runSequence executes a sequence on one gateway instance and judges every step.
 func runSequence(q sequence) (*sequenceResult, []violation, error) {
+	if q.TimeFamily != "" {
+		return runTimeSequence(q)
+	}
 	now := time.Now()
 	w, err := buildWorld(q.Role, now)
 	if err != nil {
@@ -319,6 +335,12 @@ func runSequence(q sequence) (*sequenceResult, []violation, error) {
 // ordered triple (op only before the second step).
 func genSequences(tier string) []sequence {
 	var out []sequence
+	// time-crossing sequences first: they mostly sleep, the rest of the grid runs meanwhile
+	for role := 0; role < 2; role++ {
+		for _, f := range []string{"expiring", "becoming-valid", "both"} {
+			out = append(out, sequence{Role: role, TimeFamily: f})
+		}
+	}
 	ops := []seqOp{opNone, opRevoke, opRevokeOther}
 	for role := 0; role < 2; role++ {
 		for _, a := range allPresentables {
@@ -359,4 +381,129 @@ func genSequences(tier string) []sequence {
 		}
 	}
 	return out
+}
+
+// ---- TIME-CROSSING family ----
+//
+// One gateway instance; X publishes (real msg server) certificate E whose NotAfter lies a few seconds
+// after the gateway was built and/or certificate N whose NotBefore lies a few seconds after it. Each is
+// presented at once and again, on new connections, after the boundary has passed. The oracle is the
+// statement ("currently valid"): E must be accepted before NotAfter and refused after it, N the other
+// way round. This is not a wall-clock oracle: the clock is read immediately before and after the step
+// and the step is judged only if both readings are on the same side of the boundary with a margin of
+// 0.5 s; otherwise the step is recorded as unconstrained.
+const (
+	timeLead   = 3 * time.Second        // boundary = gateway start + 3..4 s (x509 times have whole seconds)
+	timeMargin = 500 * time.Millisecond // required distance of both clock readings from the boundary
+	timeWait   = 1500 * time.Millisecond
+)
+
+func runTimeSequence(q sequence) (*sequenceResult, []violation, error) {
+	x, y := cast.Tenants[q.Role], cast.Tenants[1-q.Role]
+	ch, err := newChain()
+	if err != nil {
+		return nil, nil, machErr{"chain: " + err.Error()}
+	}
+	start := time.Now()
+	boundary := start.Add(timeLead).Truncate(time.Second).Add(time.Second)
+	type tc struct {
+		name     presentable
+		cert     *madeCert
+		validAt  func(t time.Time) bool
+		reasonNo string
+	}
+	var certs []tc
+	if q.TimeFamily == "expiring" || q.TimeFamily == "both" {
+		sp := specFor(kProper, x, y, big.NewInt(8001), start)
+		sp.NotAfter = boundary
+		c := makeCert(sp)
+		if err := ch.create(x, c); err != nil {
+			return nil, nil, machErr{"registering the expiring certificate: " + err.Error()}
+		}
+		b := c.X509.NotAfter
+		certs = append(certs, tc{"registered-expiring-soon", c, func(t time.Time) bool { return !t.After(b) }, "expired"})
+	}
+	if q.TimeFamily == "becoming-valid" || q.TimeFamily == "both" {
+		sp := specFor(kProper, x, y, big.NewInt(8002), start)
+		sp.NotBefore = boundary
+		c := makeCert(sp)
+		if err := ch.create(x, c); err != nil {
+			return nil, nil, machErr{"registering the not-yet-valid certificate: " + err.Error()}
+		}
+		b := c.X509.NotBefore
+		certs = append(certs, tc{"registered-valid-soon", c, func(t time.Time) bool { return !t.Before(b) }, "not-yet-valid"})
+	}
+	if len(certs) == 0 {
+		return nil, nil, machErr{"unknown time family " + q.TimeFamily}
+	}
+
+	rec := &recorder{}
+	pid, err := sdk.AccAddressFromBech32(cast.Provider)
+	if err != nil {
+		return nil, nil, machErr{err.Error()}
+	}
+	serverCert := makeCert(certSpec{CN: cast.Provider, Serial: big.NewInt(1), NotBefore: start.Add(-year), NotAfter: start.Add(year), DNS: []string{"localhost"}})
+	srv, err := rest.NewServer(context.Background(), log.NewNopLogger(), &fakeProvider{rec}, ch, "127.0.0.1:0", pid, []tls.Certificate{serverCert.tlsCert()})
+	if err != nil {
+		return nil, nil, machErr{"rest.NewServer: " + err.Error()}
+	}
+	ts := httptest.NewUnstartedServer(srv.Handler)
+	ts.TLS = srv.TLSConfig
+	ts.Config.BaseContext = srv.BaseContext
+	ts.Config.ErrorLog = stdlog.New(io.Discard, "", 0)
+	ts.StartTLS()
+	defer ts.Close()
+	verify := ts.TLS.VerifyPeerCertificate
+
+	res := &sequenceResult{Sequence: q}
+	var viols []violation
+	reqs := seqRequests(y)
+	step := 0
+	for phase := 0; phase < 2; phase++ {
+		if phase == 1 {
+			if d := time.Until(boundary.Add(timeWait)); d > 0 {
+				time.Sleep(d)
+			}
+		}
+		for _, c := range certs {
+			c := c
+			tcert := c.cert.tlsCert()
+			ccfg := &tls.Config{InsecureSkipVerify: true, MinVersion: tls.VersionTLS13, // nolint: gosec
+				GetClientCertificate: func(*tls.CertificateRequestInfo) (*tls.Certificate, error) { return &tcert, nil }}
+			t0 := time.Now()
+			ocs, err := drive(q.String(), ts.URL, ccfg, rec, reqs)
+			if err != nil {
+				return nil, nil, err
+			}
+			verr := verify([][]byte{c.cert.DER}, nil)
+			t1 := time.Now()
+			v0, v1 := c.validAt(t0.Add(-timeMargin)) && c.validAt(t0.Add(timeMargin)), c.validAt(t1.Add(-timeMargin)) && c.validAt(t1.Add(timeMargin))
+			n0, n1 := !c.validAt(t0.Add(-timeMargin)) && !c.validAt(t0.Add(timeMargin)), !c.validAt(t1.Add(-timeMargin)) && !c.validAt(t1.Add(timeMargin))
+			st := stepResult{Step: step, Present: c.name, Publisher: x, DirectOK: verr == nil, Outcomes: ocs,
+				Boundary: boundary.UTC().Format(time.RFC3339), ClockFrom: t0.UTC().Format(time.RFC3339Nano), ClockTo: t1.UTC().Format(time.RFC3339Nano)}
+			if verr != nil {
+				st.DirectErr = verr.Error()
+			}
+			switch {
+			case v0 && v1:
+				st.Sound, st.Strict = true, true
+			case n0 && n1:
+				st.Sound, st.Strict = false, false
+			default:
+				st.Unjudged = true
+			}
+			res.Steps = append(res.Steps, st)
+			step++
+			if st.Unjudged {
+				continue
+			}
+			viols = append(viols, judgeStep(verdictInput{
+				Label:  fmt.Sprintf("%s [step %d: %s, %s the boundary %s]", q, step, c.name, map[bool]string{true: "inside the validity window, before/after", false: "outside the validity window, before/after"}[st.Sound], st.Boundary),
+				Prefix: "seq-", Present: true, Sound: st.Sound, Strict: st.Strict, SigKind: string(c.name), Reason: c.reasonNo, Publisher: x,
+				DirectOK: st.DirectOK, DirectErr: st.DirectErr, Outcomes: ocs,
+			})...)
+		}
+	}
+	res.ChainLog = ch.log
+	return res, viols, nil
 }
